@@ -45,6 +45,13 @@ def socket_send_to(ex, args, callee):
     return send_to(ex, args, callee)
 
 
+@stub('UdpSocket::try_clone', 'UnixDatagram::try_clone')
+def socket_try_clone(ex, args, callee):
+    # a duplicated descriptor refers to the same socket
+    sock = ex.deref_all(args[0])
+    return ok(sock)
+
+
 @stub('<* as ToSocketAddrs>::to_socket_addrs')
 def to_socket_addrs(ex, args, callee):
     a = ex.deref_all(args[0]) if isinstance(args[0], Ref) else args[0]
@@ -90,6 +97,15 @@ def mutex_lock(ex, args, callee):
         raise Unsupported('re-entrant lock (would deadlock)')
     ms['held'] = True
     return ok(Native('MutexGuard', (m.state, m.ident), fresh_id()))
+
+
+@stub('Mutex::try_lock')
+def mutex_try_lock(ex, args, callee):
+    # another thread may hold the lock at this moment (environment choice): WouldBlock, or the same as lock()
+    if ex.choose([z3.BoolVal(True), z3.BoolVal(True)], free=True) == 1:
+        ex.events.append(('try_lock_contended',))
+        return err(Agg('enum', 'TryLockError', 'WouldBlock', (), 1))
+    return mutex_lock(ex, args, callee)
 
 
 @stub('<MutexGuard as DerefMut>::deref_mut', '<MutexGuard as Deref>::deref')
